@@ -158,14 +158,16 @@ def run(model, rep):
                  ('C03.SIB', 'binder, renamer and printer use the same identifier field'), ('C03.RES', 'reservation discipline of the assignment loop'),
                  ('C03.FLOW', 'generated names exclude keywords and builtins')]:
         rep.rule(r, t)
-    tab(model, rep)
-    resolve_rule(model, rep)
     from . import rename_e2e
     rep.rule('C03.E2E', 'renaming end to end on probe modules: same structure, consistent new names, no two bindings of one name meet (scopes from symtable), interface names untouched')
     rename_e2e.run(model, rep, 'C03.E2E')
     forms(model, rep)
-    res_rules(model, rep)
-    flow(model, rep)
+    # white-box rules: written against internal functions of the renamer; they widen the inputs covered (synthetic scope worlds, 3200 generated names,
+    # every syntactic slot) and are reported as not evaluated when those internals do not exist under their names - E2E / EX above decide the behaviour
+    rep.optional(['C03.TAB'], ['C03.E2E', 'C03.EX'], lambda: tab(model, rep))
+    rep.optional(['C03.RESOLVE'], ['C03.E2E', 'C03.EX'], lambda: resolve_rule(model, rep))
+    rep.optional(['C03.RES'], ['C03.E2E'], lambda: res_rules(model, rep))
+    rep.optional(['C03.FLOW'], ['C03.E2E'], lambda: flow(model, rep))
 
 
 # ---------------------------------------------------------------------- TAB
@@ -273,88 +275,11 @@ def binding_forms():
 
 
 def forms(model, rep):
-    B = R + 'binding'
-    BN = R + 'bind_names'
-    RN = R + 'resolve_names'
-    # ASDL coverage: every binding identifier field of this interpreter has a form
-    covered = {(l.split(' ')[0], f) for (l, _m, f) in binding_forms()}
-    for (c, f, q) in oracles.identifier_fields():
-        if (c, f) in BINDING and (c, f) not in covered and not (c == 'alias' and f == 'asname'):
-            raise AnalysisError('binding identifier field %s.%s has no descriptor in the C03 form table' % (c, f))
-    for (label, mk, field) in binding_forms():
-        cls = mk().cls
-        # ---- renamer
-        node = mk()
-        b = Obj('NameBinding', _name='OLD', _references=[node], _allow_rename=True, _reserved=None)
-        b.attrs['references'] = b.attrs['_references']
-        hooks = dict(std_hooks(), **{'arg_rename_in_place': lambda I, e, args, kw, env: True})
-        I = Interp(model, B, hooks)
-        res = I.explore(lambda: I.call_method(B + '.NameBinding', 'rename', b, ['NEW']))
-        if any(o[0] != 'return' for (o, _e, _u) in res):
-            raise AnalysisError('UNDECIDED: NameBinding.rename on %s -> %s %s' % (label, [r[0] for r in res], res[0][2][:3]))
-        v = node.attrs.get(field)
-        if field == 'names':
-            ok = isinstance(v, list) and 'NEW' in v and 'OLD' not in v and 'other' in v
-        else:
-            ok = v == 'NEW'
-        untouched = all(node.attrs[k] == mk().attrs[k] for k in ('name',) if cls == 'alias' and k in node.attrs)
-        rep.check(ok and untouched, 'C03.EX', model.method(B + '.NameBinding', 'rename').loc(), 'rename: %s -> %s=%r' % (label, field, v), 'reference rewritten',
-                  'a %s reference is not renamed (field %s stays %r): the binding and this mention would diverge' % (label, field, v), key='C03.EX|rename|' + label)
-        # ---- cost functions
-        for fn in ('additional_byte_cost', 'old_mention_count', 'new_mention_count'):
-            node = mk()
-            b = Obj('NameBinding', _name='OLD', _references=[node], _allow_rename=True, _reserved=None)
-            b.attrs['references'] = b.attrs['_references']
-            I = Interp(model, B, hooks)
-            res = I.explore(lambda: I.call_method(B + '.Binding', fn, b, []))
-            outs = {o[0] for (o, _e, _u) in res}
-            vals = [o[1] for (o, _e, _u) in res if o[0] == 'return']
-            ok = outs == {'return'} and all(isinstance(x, int) for x in vals)
-            rep.check(ok, 'C03.EX', model.method(B + '.Binding', fn).loc(), '%s: %s -> %s' % (fn, label, vals if ok else sorted(outs)), 'handled', '%s does not handle a %s reference (%s)' % (fn, label, [r[0] for r in res]),
-                      key='C03.EX|%s|%s' % (fn, label))
-        if label in ('Name (load)', 'Nonlocal'):
-            if label == 'Name (load)':
-                continue
-        # ---- binder
-        node = mk()
-        ns = node.attrs.get('namespace') if isinstance(node.attrs.get('namespace'), Obj) else Obj('FunctionDef', name='scope')
-        for o in (ns,):
-            o.attrs.update(bindings=[], global_names=set(), nonlocal_names=set())
-        node.attrs['namespace'] = ns
-        modo = Obj('Module', preserved=set(), tainted=False)
-        hooks2 = dict(std_hooks(), **{'dir': lambda I, e, args, kw, env: dir(builtins), 'arg_rename_in_place': lambda I, e, args, kw, env: True,
-                                      'get_global_namespace': lambda I, e, args, kw, env: modo, 'self.generic_visit': lambda I, e, args, kw, env: None})
-        I = Interp(model, BN, hooks2)
-        res = I.explore(lambda: I.call_method(BN + '.NameBinder', 'visit', Obj('NameBinder'), [node]))
-        if any(o[0] != 'return' for (o, _e, _u) in res):
-            raise AnalysisError('UNDECIDED: NameBinder.visit on %s -> %s %s' % (label, [r[0] for r in res], res[0][2][:3]))
-        names = [x.attrs.get('_name') for x in ns.attrs['bindings']]
-        refs = [x for x in ns.attrs['bindings'] if any(r is node for r in x.attrs.get('_references', []))]
-        if label == 'Nonlocal':
-            rep.check(not names, 'C03.EX', model.cls(BN + '.NameBinder').path, 'binder: nonlocal statement -> bindings %s' % names, 'a nonlocal declaration creates no binding',
-                      'a nonlocal declaration creates a local binding %s' % names, key='C03.EX|binder|Nonlocal')
-        else:
-            rep.check('OLD' in names and bool(refs), 'C03.EX', model.cls(BN + '.NameBinder').path, 'binder: %s -> bindings %s' % (label, names), 'binding created with the node as reference',
-                      'the binder creates no binding for the name bound by %s (got %s): references would resolve to an outer or builtin name' % (label, names), key='C03.EX|binder|' + label)
-        # ---- resolver (nonlocal-style late resolution)
-        node = mk()
-        ns = node.attrs.get('namespace') if isinstance(node.attrs.get('namespace'), Obj) else Obj('FunctionDef', name='scope')
-        ns.attrs.update(bindings=[], global_names=set(), nonlocal_names={'OLD'})
-        node.attrs['namespace'] = ns
-        target = Obj('NameBinding', _name='OLD', _references=[], _allow_rename=True, _reserved=None)
-        target.attrs['references'] = target.attrs['_references']
-        hooks3 = dict(std_hooks(), **{'get_binding': lambda I, e, args, kw, env: target, 'get_binding_disallow_class_namespace_rename': lambda I, e, args, kw, env: target,
-                                      'ast.iter_child_nodes': lambda I, e, args, kw, env: []})
-        I = Interp(model, RN, hooks3)
-        res = I.explore(lambda: I.call_function(RN + '.resolve_names', [node]))
-        if any(o[0] != 'return' for (o, _e, _u) in res):
-            raise AnalysisError('UNDECIDED: resolve_names on %s -> %s %s' % (label, [r[0] for r in res], res[0][2][:3]))
-        got = any(r is node for r in target.attrs['_references'])
-        if cls in ('Global', 'arg', 'TypeVar', 'ParamSpec', 'TypeVarTuple'):
-            continue  # cannot be nonlocal: bound by the binder only (global statements are bound by the binder; parameters and type parameters cannot be declared nonlocal)
-        rep.check(got, 'C03.EX', model.func(RN + '.resolve_names').loc(), 'resolver: %s with a nonlocal name' % label, 'reference added to the outer binding',
-                  'a %s whose name is declared nonlocal is not attached to the outer binding: renaming the outer binding leaves this mention behind' % label, key='C03.EX|resolver|' + label)
-    rep.floor('C03.EX', 90)
+    # ASDL coverage: every binding identifier field of this interpreter's grammar has probes; each is renamed end to end by the real minify()
+    from . import rename_e2e
+    fields = {(c, f) for (c, f, _q) in oracles.identifier_fields() if (c, f) in BINDING} | {('alias', 'name')}
+    rename_e2e.forms(model, rep, 'C03.EX', fields)
+    rep.floor('C03.EX', 30)
     # ---- SIB: the printer prints the field the renamer writes. Decided by printing: a probe program is parsed, the identifier field of the node is
     # overwritten the way Binding.rename does it, the tree is printed by the repository's printer (abstractly run) and parsed back.
     from ..absprint import print_module, same_tree
